@@ -349,18 +349,20 @@ func c15Convert(c *Ctx) {
 		}
 		n++
 		key := fk(fn)
+		// the converter and the helpers of its package it calls (appendRepeated, millis, a builder's addShoot, ...)
+		region := FindFuncs(fn, 2, func(*ssa.Function) bool { return true })
 		var parse *ssa.Call
-		EachInstr(fn, func(in ssa.Instruction) {
-			if cl, ok := in.(*ssa.Call); ok && cl.Call.StaticCallee() == psn {
-				parse = cl
-			}
-		})
+		for _, g2 := range region {
+			EachInstr(g2, func(in ssa.Instruction) {
+				if cl, ok := in.(*ssa.Call); ok && cl.Call.StaticCallee() == psn {
+					parse = cl
+				}
+			})
+		}
 		if parse == nil {
 			c.Anchor("O15.3", "ParseShootName call in "+key)
 			continue
 		}
-		// the converter and the helpers of its package it calls (appendRepeated, millis, ...)
-		region := FindFuncs(fn, 2, func(*ssa.Function) bool { return true })
 		fromParse := func(v ssa.Value, idx int) bool {
 			return SliceAny(v, func(r ssa.Value) bool { return IsResultOf(parse, idx)(r) })
 		}
@@ -475,8 +477,8 @@ func c15Convert(c *Ctx) {
 			// dominated by name == "sleep" (in the converter; for a store inside a helper: at the helper's call)
 			isSleep := false
 			factsAt := ssa.Instruction(st)
-			if lifted := LiftTo(fn, st); lifted != nil {
-				factsAt = lifted
+			if lifted := LiftTo(parse.Parent(), st); lifted != nil {
+				factsAt = lifted // (the facts of the function that parsed the item: the converter, or the helper it hands the item to)
 			}
 			for _, f := range CmpFactsAt(factsAt) {
 				if f.Op == token.EQL {
